@@ -129,13 +129,19 @@ def wrong_data_digest(base):
     return h.build() + base[p.header_len:]
 
 
-def histories(depth):
+def histories(depth, deep=False):
     out = ["-"]
     for n in range(1, depth + 1):
         out += [",".join(h) for h in itertools.product(OPS, repeat=n)]
     # a partial read (5 bytes: less than any chunk, so decoded bytes stay buffered) in front of and between validations
     out += ["r5," + ",".join(h) for n in (1, 2) for h in itertools.product(OPS, repeat=n)]
     out += ["r5,%s,r5,%s" % (a, b) for a in OPS for b in OPS] + ["%s,r5,%s" % (a, b) for a in OPS for b in OPS]
+    # a context with another kind of past: chunk requests (data / stored bytes) in front of and between the scans - whatever
+    # they leave behind in the running digests, buffers and the file position, the scan has to classify the disk as it is
+    for q in (("C1", "S1", "C2", "C1,C2") if deep else ("C1", "S2")):
+        out += ["%s,%s" % (q, a) for a in OPS] + ["%s,%s,%s" % (a, q, b) for a in OPS for b in OPS]
+        if deep:
+            out += ["%s,%s,%s" % (q, a, b) for a in OPS for b in OPS]
     return out
 
 
@@ -191,6 +197,13 @@ def work(arg):
             bad = None
             for k, (op, ret, fl) in enumerate(steps):
                 ret = int(ret)
+                if op in "CS":
+                    # a chunk request in the history: its own result is C14's subject; one that failed leaves the context in
+                    # error state (every later call is refused by design), so nothing behind it is judged
+                    if ret < 0:
+                        break
+                    cur_flags = fl
+                    continue
                 if op == "r":
                     # a partial read in front of / between the validations: what the scans report on a context that is in the
                     # middle of a stream (or in error state after a refused read) is not judged - only the final content is
@@ -216,6 +229,8 @@ def work(arg):
             obs = (s["last"], s["rclose"], s["content"], s["ferr"])
             if h == "-":
                 baseline = obs
+            elif "C" in h or "S" in h:
+                pass    # a sequential read behind a chunk request has no defined position (C14): the final read is not judged
             elif not bad and baseline is not None and "r" in h:
                 # partial reads mixed with validations: the library may refuse to go on (it does), but if every call
                 # reports success the stream must be the file's content
@@ -237,7 +252,7 @@ def work(arg):
 
 def run(ctx):
     depth = 2 if ctx.tier == "quick" else (4 if ctx.deep else 3)
-    hists = histories(depth)
+    hists = histories(depth, ctx.deep)
     tg = targets(ctx)
     jobs = []
     nstates = 0
